@@ -41,10 +41,20 @@ class Gen:
 
     def uuid(self):
         r = self.rng
-        if r.random() < 0.05:
-            return uuidlib.UUID(int=r.choice([0, 2**128 - 1, 1]) ^
-                                r.getrandbits(16))
+        if r.random() < 0.06:
+            # the nil UUID and its neighbours, exactly or nearly
+            return uuidlib.UUID(int=r.choice([0, 0, 2**128 - 1, 1]) ^
+                                (r.getrandbits(16) if r.random() < 0.4
+                                 else 0))
         return uuidlib.UUID(int=r.getrandbits(128))
+
+    def pick(self, nodes):
+        """a reference target: nodes with a boundary UUID (nil, all ones)
+        are preferred, so that they do get referenced"""
+        special = [n for n in nodes if n.uuid.int in (0, 1, 2**128 - 1)]
+        if special and self.rng.random() < 0.5:
+            return self.rng.choice(special)
+        return self.rng.choice(nodes)
 
     def build(self):
         """Returns (ir, info): info lists the nodes for reference checks."""
@@ -126,9 +136,9 @@ class Gen:
                     payload = rng.choice([0, 0, 2**64 - 1,
                                           rng.getrandbits(64)])
                 elif targets and (r < 0.9 or not (all_code + all_proxies)):
-                    payload = rng.choice(targets)
+                    payload = self.pick(targets)
                 elif all_code + all_proxies:
-                    payload = rng.choice(all_code + all_proxies)
+                    payload = self.pick(all_code + all_proxies)
                 else:
                     payload = None
                 sy = g.Symbol(name=self.name(), uuid=U(), payload=payload,
@@ -152,18 +162,18 @@ class Gen:
                             else:
                                 attrs.add(rng.choice([27, 999, 5000, 2**31 - 1]))
                         if rng.random() < 0.5:
-                            e = g.SymAddrConst(self.i64(), rng.choice(syms),
+                            e = g.SymAddrConst(self.i64(), self.pick(syms),
                                                attrs)
                         else:
                             e = g.SymAddrAddr(self.i64(), self.i64(),
-                                              rng.choice(syms),
-                                              rng.choice(syms), attrs)
+                                              self.pick(syms),
+                                              self.pick(syms), attrs)
                         x.symbolic_expressions[k] = e
             # entry point
             if code and rng.random() < 0.6:
-                m.entry_point = rng.choice(code)
+                m.entry_point = self.pick(code)
             elif all_code and rng.random() < 0.3:
-                m.entry_point = rng.choice(all_code)
+                m.entry_point = self.pick(all_code)
             elif self.forward_entry:
                 pending_entry.append(m)
             if late_attach:
@@ -193,7 +203,7 @@ class Gen:
                     label = g.Edge.Label(self.pick_enum(T),
                                          rng.random() < 0.5,
                                          rng.random() < 0.5)
-                a, b = rng.choice(nodes), rng.choice(nodes)
+                a, b = self.pick(nodes), self.pick(nodes)
                 ir.cfg.add(g.Edge(a, b, label))
                 if label is not None and rng.random() < 0.35:
                     # a parallel edge differing only in one flag
